@@ -67,8 +67,20 @@ CHECKS = {
               'the clause for rates below 1/s is FALSE of the code (theorem starves_below_one; known finding '
               'limiter-rate-below-one, replayed on the real object every run); (3) throttle: denied iff sample_size '
               'responses are in and the rounded percentage exceeds deny_request_at, never otherwise; window reset exactly '
-              'after sampling_period; sending resumes after the reset. The gate in the sender loop (consulted before each '
-              'PDU) is covered by the session-level correspondence (C15/C06 harness), not by these theorems.'),
+              'after sampling_period; sending resumes after the reset; (4) the gate in the session (Model/Gate.lean): a monitor over '
+              'the observable events (handler fed, allow_request consulted at a time with its answer, submit_sm written) and a model '
+              'of the Sender at the gate; gate_write_not_denied: in every accepted trace a written submit_sm was let through by a '
+              'consultation of its own answered True on counters that did not meet the denial condition, nothing but response feeds '
+              'in between; sender_accepted: every behaviour of the Sender model under any schedule of responses and clock readings '
+              'is accepted; sender_never_writes_denied: with nothing suspending between consultation and write no PDU is written on '
+              'denied counters; sender_progress: never suspended otherwise. Tied to the code by real sessions (tools/corr/c18s.py: real '
+              'handler and limiter plugged into the real ESME on the virtual-time loop, scripted SMSC answering throttled / queue-full / '
+              'other, multi-segment messages, a slow store or hook suspending the Sender between segments): the observed trace must be '
+              'accepted by gate.mon, reproduced by gate.sender when no rate limiter waits, and pass an independent predicate '
+              '(answers, one consultation per PDU, one feed per response, re-consultation after throttle_wait, rate bound on the '
+              'wire, everything sent when never denied). Not proved: that a response handled between a consultation and its write '
+              '(rate-limiter wait, slow sending hook) cannot let one approved PDU out on counters that meanwhile reached the denial '
+              'condition - the code does allow that, and the statement is read as being about consultations.'),
         note=COMMON_NOTE + 'IEEE doubles are not modelled: the generator uses dyadic rates and times so that every float the code computes is exact; round(x,2) is modelled as round-half-even on the exact rational and inputs within 0.005 of the threshold are outside the predicate. Mathlib (linarith, ring, ordered-field instance of Rat) is used in the lemma file only.',
         technique='Lean 4 theorems (potential-function invariant by induction over attempt lists, linarith over Rat); differential correspondence on a virtual clock'),
     'C09': dict(
@@ -102,8 +114,11 @@ CHECKS = {
               'put performs the sweep first and reports each overdue request still stored (by the next request, probes '
               'included); an overdue request does not survive the sweep and nothing re-inserts it (exactly once); get removes '
               'the request before it sweeps, so an answered request is not reported. Tied to correlator.py on a virtual clock '
-              'with responses/probes at ttl-1, ttl, ttl+1 quanta and many outstanding requests. That a probe is in fact sent '
-              'every enquire_link_interval is C16 (session model).'),
+              'with responses/probes at ttl-1, ttl, ttl+1 quanta, many outstanding requests, segments of one message stored at '
+              'different instants and answered or not (each segment has its own time-to-live), and a second correlator operation '
+              'while an expiry notification is suspended. Session level (no theorem): the C01 session ledger checks on real sessions '
+              'that an unanswered message is reported neither before its time-to-live nor later than the following keep-alive '
+              'probes allow. That a probe is in fact sent every enquire_link_interval is C16 (session model).'),
         note=COMMON_NOTE + 'time.monotonic replaced by a virtual clock in quanta of 1/1024 s (floats exact). Operations are atomic here; a hook that suspends inside _remove_expired is a session-level interleaving.',
         technique='Lean 4 theorems (induction over the key snapshot of the sweep, frame lemmas); differential correspondence on a virtual clock'),
     'C01': dict(
